@@ -85,48 +85,6 @@ func runSolver(ctx context.Context, s solverSpec, file string, limit time.Durati
 	return "error", out, secs
 }
 
-func solveOne(o *Obligation, opts SolveOpts, stats *solveStats, idx int) {
-	if len(o.parts) == 0 {
-		solveQuery(o, opts, stats, idx)
-		return
-	}
-	// several queries: all must be unsat
-	t0 := time.Now()
-	res := "unsat"
-	var solversUsed []string
-	var outs []string
-	for pi, p := range o.parts {
-		if p == "false" {
-			continue
-		}
-		sub := *o
-		sub.parts = nil
-		sub.cond = p
-		solveQuery(&sub, opts, stats, idx*100+pi)
-		outs = append(outs, fmt.Sprintf("path %d: %s", pi, sub.Result))
-		if sub.Solver != "" {
-			solversUsed = append(solversUsed, sub.Solver)
-		}
-		if sub.Result == "sat" {
-			res = "sat"
-			o.Model, o.cond = sub.Model, p
-			break
-		}
-		if sub.Result != "unsat" {
-			if res == "unsat" {
-				res = sub.Result
-				o.cond = p
-			}
-		}
-	}
-	o.Result = res
-	o.Output = strings.Join(outs, "; ")
-	if len(solversUsed) > 0 {
-		o.Solver = solversUsed[len(solversUsed)-1]
-	}
-	o.Secs = time.Since(t0).Seconds()
-}
-
 func solveQuery(o *Obligation, opts SolveOpts, stats *solveStats, idx int) {
 	file := filepath.Join(opts.Dir, fmt.Sprintf("o%07d.smt2", idx))
 	if err := os.WriteFile(file, []byte(o.smt(false)), 0644); err != nil {
@@ -244,6 +202,29 @@ func solveAll(obls []*Obligation, opts SolveOpts) *solveStats {
 	if opts.Workers <= 0 {
 		opts.Workers = 8
 	}
+	// one task per query: obligations with several parts (return paths) are
+	// split and aggregated afterwards
+	type task struct {
+		o    *Obligation
+		part int
+		sub  *Obligation
+	}
+	var tasks []*task
+	for _, o := range obls {
+		if len(o.parts) == 0 {
+			tasks = append(tasks, &task{o: o, part: -1, sub: o})
+			continue
+		}
+		for pi, p := range o.parts {
+			if p == "false" {
+				continue
+			}
+			sub := *o
+			sub.parts = nil
+			sub.cond = p
+			tasks = append(tasks, &task{o: o, part: pi, sub: &sub})
+		}
+	}
 	var wg sync.WaitGroup
 	ch := make(chan int)
 	for w := 0; w < opts.Workers; w++ {
@@ -251,14 +232,61 @@ func solveAll(obls []*Obligation, opts SolveOpts) *solveStats {
 		go func() {
 			defer wg.Done()
 			for i := range ch {
-				solveOne(obls[i], opts, stats, i)
+				t := tasks[i]
+				po := opts
+				if t.o.Canary {
+					// expected to fail: a short limit is enough to notice a stale entry
+					po.Stage2 = 3 * time.Second
+					po.All = false
+				}
+				solveQuery(t.sub, po, stats, i)
 			}
 		}()
 	}
-	for i := range obls {
+	for i := range tasks {
 		ch <- i
 	}
 	close(ch)
 	wg.Wait()
+	// aggregate
+	agg := map[*Obligation][]*task{}
+	for _, t := range tasks {
+		if t.part >= 0 {
+			agg[t.o] = append(agg[t.o], t)
+		}
+	}
+	for o, ts := range agg {
+		res := "unsat"
+		var outs []string
+		secs := 0.0
+		for _, t := range ts {
+			outs = append(outs, fmt.Sprintf("path %d: %s", t.part, t.sub.Result))
+			secs += t.sub.Secs
+			if t.sub.Solver != "" {
+				o.Solver = t.sub.Solver
+			}
+			switch {
+			case t.sub.Result == "sat":
+				if res != "sat" {
+					res = "sat"
+					o.Model, o.cond = t.sub.Model, t.sub.cond
+				}
+			case t.sub.Result != "unsat":
+				if res == "unsat" {
+					res = t.sub.Result
+					o.cond = t.sub.cond
+				}
+			}
+		}
+		if len(ts) == 0 {
+			res = "unsat"
+		}
+		o.Result, o.Output, o.Secs = res, strings.Join(outs, "; "), secs
+	}
+	for _, o := range obls {
+		if len(o.parts) > 0 && o.Result == "" {
+			o.Result = "unsat" // every part was trivially false
+		}
+	}
 	return stats
 }
